@@ -322,6 +322,28 @@ func main() {
 			rec(nil, 0)
 		}
 
+		// 2b. the same alphabet without the separating blanks (adjacent tokens: "a$", "1a", "...a", "on{"):
+		// every sequence of length <= 2 (3 in the thorough tier) after each prefix
+		for _, prefix := range exhaustivePrefixes {
+			k := 2
+			if h.Thorough() {
+				k = 3
+			}
+			var rec func(cur []string, depth int)
+			rec = func(cur []string, depth int) {
+				if depth > 0 {
+					emit(caseOpts{family: "compact", n: len(cur)}, fixed(prefix+strings.Join(cur, "")))
+				}
+				if depth == k {
+					return
+				}
+				for _, t := range denseTokens {
+					rec(append(cur[:len(cur):len(cur)], t), depth+1)
+				}
+			}
+			rec(nil, 0)
+		}
+
 		// 3. the families, sizes ascending
 		for _, f := range families() {
 			sizes := f.quick
